@@ -107,7 +107,7 @@ def compile_ir(cmd, outdir, flavour='configured', extra=()):
     text = normalise_new_helpers(text, cmd['unit'])
     if renamed:
         text += ''.join(f'\n; lecverif: file-local function {g} stands for {f_} of the reference tree (same signature, same referrers)' for g, f_ in sorted(renamed.items())) + '\n'
-    text2 = fold_select_compares(fold_const_table_loads(split_struct_allocas(text)))
+    text2 = fold_bool_indexed_pairs(fold_select_compares(fold_const_table_loads(split_struct_allocas(text))))
     if text2 is not text:
         p3 = subprocess.run(['opt-14', '-S', '-passes=' + passes, '-o', '-'], input=text2, text=True, capture_output=True)
         if p3.returncode != 0:
@@ -495,6 +495,74 @@ def fold_select_compares(text):
                         new = f'{ind}{res} = xor i1 {c}, true{dbg}'
                     lines[k] = new
                     changed = True
+            start = None
+    return '\n'.join(lines) if changed else text
+
+def fold_bool_indexed_pairs(text):
+    """`T pick[2] = {a, b}; ... pick[cond]` - a two-entry local table indexed by a 0/1 truth value is the conditional expression
+    `cond ? b : a`.  The table is a local array with one constant-index store per slot and loads whose index is a widened i1; the
+    loads become selects (the array and its stores are left behind, dead).  Returns `text` itself when nothing matched."""
+    lines = text.split('\n')
+    changed = False
+    start = None
+    for n, ln in enumerate(lines):
+        if ln.startswith('define '):
+            start = n
+        elif ln == '}' and start is not None:
+            body = range(start, n)
+            arrays = {}
+            for k in body:
+                m = re.match(r'\s*(%[\w.]+) = alloca \[2 x ([^\]]+)\]', lines[k])
+                if m:
+                    arrays[m.group(1)] = {'ty': m.group(2).strip(), 'slot': {}, 'var': {}, 'bad': False}
+            if arrays:
+                widen = {}
+                for k in body:
+                    m = re.match(r'\s*(%[\w.]+) = (?:zext|sext) (i\d+) (%[\w.]+) to i\d+', lines[k])
+                    if m:
+                        widen[m.group(1)] = (m.group(2), m.group(3))
+                def truth_of(v, depth=0):
+                    while v in widen and depth < 4:
+                        ty, src = widen[v]
+                        if ty == 'i1':
+                            return src
+                        v = src; depth += 1
+                    return None
+                geps = {}
+                for k in body:
+                    m = re.match(r'\s*(%[\w.]+) = getelementptr inbounds \[2 x [^\]]+\], \[2 x [^\]]+\]\* (%[\w.]+), i64 0, i64 (%[\w.]+|\d+)', lines[k])
+                    if m and m.group(2) in arrays:
+                        geps[m.group(1)] = (m.group(2), m.group(3))
+                for k in body:
+                    # the initialiser reaches slot 1 from the address of slot 0
+                    m = re.match(r'\s*(%[\w.]+) = getelementptr inbounds [^,]+, [^,]+\* (%[\w.]+), i64 1(, !dbg !\d+)?$', lines[k])
+                    if m and geps.get(m.group(2), (None, None))[1] == '0':
+                        geps[m.group(1)] = (geps[m.group(2)][0], '1')
+                for k in body:
+                    for a in arrays:
+                        if re.search(re.escape(a) + r'\b', lines[k]) and not re.match(r'\s*' + re.escape(a) + r' = alloca', lines[k]) and \
+                           not re.match(r'\s*%[\w.]+ = getelementptr inbounds \[2 x', lines[k]) and 'llvm.dbg' not in lines[k]:
+                            arrays[a]['bad'] = True
+                for k in body:
+                    m = re.match(r'\s*store (.+?) (%[\w.]+|null|-?\d+), .+?\* (%[\w.]+),', lines[k])
+                    if m and m.group(3) in geps:
+                        a, idx = geps[m.group(3)]
+                        if idx in ('0', '1') and int(idx) not in arrays[a]['slot']:
+                            arrays[a]['slot'][int(idx)] = m.group(2)
+                        else:
+                            arrays[a]['bad'] = True
+                for k in body:
+                    m = re.match(r'(\s*)(%[\w.]+) = load (.+?), .+?\* (%[\w.]+),(.*)$', lines[k])
+                    if m and m.group(4) in geps:
+                        a, idx = geps[m.group(4)]
+                        info = arrays[a]
+                        c = truth_of(idx) if not idx.isdigit() else None
+                        if info['bad'] or len(info['slot']) != 2 or c is None:
+                            continue
+                        dbg = re.search(r'(, !dbg !\d+)', m.group(5))
+                        ty = m.group(3).strip()
+                        lines[k] = f'{m.group(1)}{m.group(2)} = select i1 {c}, {ty} {info["slot"][1]}, {ty} {info["slot"][0]}{dbg.group(1) if dbg else ""}'
+                        changed = True
             start = None
     return '\n'.join(lines) if changed else text
 
